@@ -15,6 +15,7 @@ from ..run import Outcome
 
 ID = "C04"
 BUDGET = {"quick": 16000, "thorough": 200000}
+FUZZ = {"thorough": 6000}  # coverage-guided stage: libFuzzer runs per worker (x16), see vk/fuzz.py
 RULE = (
     "Hypothesis: profile of 1-8 ballots with tied positions over 1-6 declared candidates "
     "(partial ballots, zero-vote candidates, int or p/q weights) x non-increasing non-negative "
